@@ -1,5 +1,6 @@
 import BoltonsVerif.C05.Frame
 import BoltonsVerif.C05.AcceptProofs
+import BoltonsVerif.C05.AcceptMore
 /-
 C05 — the two layers meet: what the transliteration records of its own calls (`M.obs`) is, for every
 plan, a trace with the bookkeeping facts `T` (frame principle), and - outside the one excluded region
@@ -583,5 +584,232 @@ theorem A_run_total (cfg : Cfg) (raises : Bool) : ∀ (t : List Obs) (a : A) (s'
       · exact Or.inr ⟨h1, by simpa [listedFailed] using h2, h3, h4⟩
     obtain ⟨a', hr, hs'⟩ := A_run_total cfg raises t { a with env := true } s' h hcl hst hpub1
     exact ⟨a', by simp only [A.run, A.step]; exact hr, hs'⟩
+
+/-! ### the assembly -/
+
+theorem pub_then_none : ∀ (t : List Ev) (s s' : St), s.published = true → s.run t = some s' → publishes t = false
+  | [], _, _, _, _ => rfl
+  | ev :: t, s, s', hp, h => by
+    simp only [St.run] at h
+    cases hs : s.step ev with
+    | none => simp [hs] at h
+    | some s1 =>
+      simp only [hs] at h
+      have h1 := (published_step s s1 ev hs).1
+      have hnp : publishes [ev] = false := by
+        obtain ⟨ph, op, db, us⟩ := s
+        cases ev <;> simp [publishes] <;> cases ph <;> simp [St.step, St.published] at hs hp
+      rw [publishes_cons, hnp, Bool.false_or]
+      exact pub_then_none t s1 s' (by rw [h1, hp]; rfl) h
+
+theorem publishes_of_mem_rename (t : List Ev) (h : Ev.renamePartDest ∈ t) : publishes t = true := by
+  induction t with
+  | nil => simp at h
+  | cons e t ih =>
+    rw [publishes_cons]
+    rcases List.mem_cons.1 h with rfl | h
+    · simp [publishes]
+    · simp [ih h]
+
+/-- an accepted trace of events contains at most one publication: never both a `rename` and a `link` -/
+theorem one_publish : ∀ (t : List Ev) (s s' : St), s.run t = some s' →
+    Ev.renamePartDest ∈ t → Ev.linkPartDest ∈ t → False
+  | [], _, _, _, h, _ => by simp at h
+  | ev :: t, s, s', h, hr, hl => by
+    simp only [St.run] at h
+    cases hs : s.step ev with
+    | none => simp [hs] at h
+    | some s1 =>
+      simp only [hs] at h
+      have h1 := (published_step s s1 ev hs).1
+      rcases List.mem_cons.1 hr with rfl | hr'
+      · rcases List.mem_cons.1 hl with hh | hl'
+        · cases hh
+        · have := pub_then_none t s1 s' (by rw [h1]; simp [publishes]) h
+          rw [publishes_of_mem_link t hl'] at this; cases this
+      · rcases List.mem_cons.1 hl with rfl | hl'
+        · have := pub_then_none t s1 s' (by rw [h1]; simp [publishes]) h
+          rw [publishes_of_mem_rename t hr'] at this; cases this
+        · exact one_publish t s1 s' h hr' hl'
+
+theorem A_run_failed_false (cfg : Cfg) (raises : Bool) : ∀ (t : List Obs) (a a' : A),
+    a.failed = false → listedFailed t = false → a.run cfg raises t = some a' → a'.failed = false
+  | [], a, a', hf, _, h => by simp [A.run] at h; subst h; exact hf
+  | o :: t, a, a', hf, hl, h => by
+    simp only [A.run] at h
+    cases h1 : a.step cfg raises o with
+    | none => simp [h1] at h
+    | some a1 =>
+      simp only [h1] at h
+      cases o with
+      | ok ev =>
+        simp only [A.step] at h1
+        split at h1
+        · cases hs : a.s.step ev with
+          | none => simp [hs] at h1
+          | some s' =>
+            simp [hs] at h1; subst h1
+            exact A_run_failed_false cfg raises t { a with s := s' } a' hf (by simpa [listedFailed] using hl) h
+        · simp at h1
+      | fail l i u =>
+        simp [A.step] at h1; subst h1
+        simp only [listedFailed, Bool.or_eq_false_iff] at hl
+        exact A_run_failed_false cfg raises t _ a' (by simp [hf, hl.1]) hl.2 h
+      | failClosed l =>
+        simp only [A.step] at h1
+        cases hs : a.s.step .close with
+        | none => simp [hs] at h1
+        | some s' =>
+          simp [hs] at h1; subst h1
+          simp only [listedFailed, Bool.or_eq_false_iff] at hl
+          exact A_run_failed_false cfg raises t _ a' (by simp [hf, hl.1]) hl.2 h
+      | appear =>
+        simp [A.step] at h1; subst h1
+        exact A_run_failed_false cfg raises t { a with env := true } a' hf (by simpa [listedFailed] using hl) h
+
+theorem ginv_run (P : Option Nat → Prop) (ino0 : List Inode) : ∀ (t : List Ev) (s s' : St) (fs fs' : FS) (W : Bytes),
+    GInv P ino0 s fs W → s.run t = some s' → exec fs t = some fs' → GInv P ino0 s' fs' (W ++ allWrites t)
+  | [], s, s', fs, fs', W, hi, hr, hx => by
+    simp [St.run] at hr; simp [exec] at hx; subst hr; subst hx; simpa [allWrites] using hi
+  | ev :: t, s, s', fs, fs', W, hi, hr, hx => by
+    simp only [St.run] at hr
+    simp only [exec] at hx
+    cases hs : s.step ev with
+    | none => simp [hs] at hr
+    | some s1 =>
+      cases hf : fs.step ev with
+      | error x => simp [hf] at hx
+      | ok fs1 =>
+        simp only [hs] at hr
+        simp only [hf] at hx
+        have := ginv_run P ino0 t s1 s' fs1 fs' _ (ginv_step P ino0 s s1 fs fs1 W ev hi hs hf) hr hx
+        rw [allWrites_cons, ← List.append_assoc]; exact this
+
+/-- **Every run of the transliteration is an accepted trace** - for every configuration, initial state,
+    with-block script and every fault plan without interference by another process (and without an
+    injected ENOENT, which `os.stat` answers by "absent"): what `runScript` records of its own calls is
+    accepted by `Accept`, outside the one region excluded throughout (overwrite=False, the `link`
+    succeeded and the `unlink` of the part file after it failed: an exception although published). -/
+theorem runScript_accepted (cfg : Cfg) (sc : Script) (plan : Plan) (fs0 : FS) (e : Nat)
+    (hne : ∀ k, plan k ≠ .appear) (hnn : ∀ k, plan k ≠ .fail ENOENT)
+    (hreg : (runScript cfg sc plan fs0 e).1 = .ok ∨ (runScript cfg sc plan fs0 e).2.published = false) :
+    Accept cfg sc.raises (decide ((runScript cfg sc plan fs0 e).1 = .ok)) sc.content fs0.umask fs0.destMode
+      (runScript cfg sc plan fs0 e).2.obs = true := by
+  obtain ⟨s, W, r⟩ := runScript_spec cfg fs0 e sc plan
+  have ht := runScript_T cfg sc plan fs0 e
+  have hx := runScript_X cfg sc plan fs0 e hne
+  have henv := runScript_envDone cfg sc plan fs0 e hne
+  generalize hout : (runScript cfg sc plan fs0 e).1 = out at r hreg ⊢
+  generalize hm : (runScript cfg sc plan fs0 e).2 = m at r hreg ht hx henv ⊢
+  have hpubeq : s.published = m.published := res_pub r
+  -- C04's automaton accepts the successful events
+  have hrun : St.init.run (oks m.obs) = some s := by
+    rw [← St_run_filter, ht.oks, St_run_filter]; exact r.j.run
+  have hpubobs : publishes (oks m.obs) = m.published := by
+    rw [← publishes_filter, ht.oks, publishes_filter]; rfl
+  -- the side conditions of `A_run_total`
+  have hstale : cfg.overwritePart = true ∨ A.init.s.phase ≠ .init ∨ headUnlink (oks m.obs) = false := by
+    cases hop : cfg.overwritePart with
+    | true => exact Or.inl rfl
+    | false =>
+      refine Or.inr (Or.inr ?_)
+      rw [← headUnlink_filter, ht.oks, headUnlink_filter, ← hm]
+      exact runScript_headUnlink cfg sc plan fs0 e hop
+  have hside : publishes (oks m.obs) = false ∨
+      (A.init.failed = false ∧ listedFailed m.obs = false ∧ sc.raises = false ∧
+        (cfg.overwrite = false → Ev.renamePartDest ∉ oks m.obs)) := by
+    rcases hreg with hok | hnp
+    · right
+      obtain ⟨hdone, herrs, hraise⟩ := r.ok hok
+      have hsp : s.published = true := by simp [St.published, hdone]
+      refine ⟨rfl, ?_, hraise, ?_⟩
+      · cases hl : listedFailed m.obs with
+        | false => rfl
+        | true => have := ht.lf hl; omega
+      · intro how hmem
+        have hlink := (r.pub hsp).2.2.2.1 how
+        have hmem' : Ev.renamePartDest ∈ m.tr := by
+          have : Ev.renamePartDest ∈ (oks m.obs).filter notNoop := List.mem_filter.2 ⟨hmem, rfl⟩
+          rw [ht.oks] at this
+          exact (List.mem_filter.1 this).1
+        exact one_publish m.tr St.init s r.j.run hmem' hlink
+    · left
+      rw [hpubobs]; exact hnp
+  obtain ⟨a, harun, has⟩ := A_run_total cfg sc.raises m.obs A.init s hrun (fun _ => rfl) hstale hside
+  obtain ⟨f1, f2, _⟩ := A_run_flags cfg sc.raises m.obs A.init a harun
+  have haenv : a.env = false := by rw [f2, ht.env, henv]; rfl
+  have haufail : a.ufail = unlinkFaulted m.obs := by rw [f1]; rfl
+  unfold Accept
+  rw [harun]
+  -- the end conditions
+  have hc1 : (!decide (out = .ok) || (a.s.phase == .done && !a.failed && !sc.raises)) = true := by
+    cases hd : decide (out = Outcome.ok) with
+    | false => rfl
+    | true =>
+      have hok : out = .ok := of_decide_eq_true hd
+      obtain ⟨hdone, herrs, hraise⟩ := r.ok hok
+      have hlf : listedFailed m.obs = false := by
+        cases hl : listedFailed m.obs with
+        | false => rfl
+        | true => have := ht.lf hl; omega
+      have := A_run_failed_false cfg sc.raises m.obs A.init a rfl hlf harun
+      simp [has, hdone, this, hraise]
+  have hc2 : (decide (out = .ok) || !cfg.rmPartOnExc || a.ufail || a.s.phase == .init || a.s.phase == .aborted ||
+      a.s.phase == .done) = true := by
+    cases hd : decide (out = Outcome.ok) with
+    | true => rfl
+    | false =>
+      have hne' : out ≠ .ok := of_decide_eq_false hd
+      cases hrm : cfg.rmPartOnExc with
+      | false => simp
+      | true =>
+        cases huf : a.ufail with
+        | true => simp
+        | false =>
+          have hcf : m.cleanupFaulted = false := by
+            cases hh : m.cleanupFaulted with
+            | false => rfl
+            | true => have := ht.cf hh; rw [← haufail, huf] at this; cases this
+          rcases r.failed hne' with ⟨h0, _⟩ | ⟨hni, hp⟩
+          · simp [has, h0]
+          · have hpn := hp hrm hcf
+            have : s.phase = .aborted ∨ s.phase = .done := by
+              obtain ⟨ph, op, db, us⟩ := s
+              cases ph
+              · exact absurd rfl hni
+              · have := ginv_part_some _ _ _ _ _ r.j.inv (Or.inl rfl); rw [hpn] at this; cases this
+              · have := ginv_part_some _ _ _ _ _ r.j.inv (Or.inr rfl); rw [hpn] at this; cases this
+              · exact Or.inr rfl
+              · exact Or.inl rfl
+            rcases this with h | h <;> simp [has, h]
+  have hc3 : (!a.s.published || allWrites (oks m.obs) == sc.content) = true := by
+    cases hp : a.s.published with
+    | false => rfl
+    | true =>
+      rw [has] at hp
+      have hW := (r.pub hp).2.1
+      have hw : allWrites (oks m.obs) = allWrites m.tr := by rw [← allWrites_filter, ht.oks, allWrites_filter]
+      have hg := ginv_run PT fs0.inodes m.tr St.init s fs0 m.fs [] (by simp [GInv, St.init, PT]) r.j.run hx
+      simp only [List.nil_append] at hg
+      obtain ⟨_, x, hx1, hd1, _⟩ := ginv_pub _ _ _ _ hg hp
+      obtain ⟨_, y, hy1, hd2, _⟩ := ginv_pub _ _ _ _ r.j.inv hp
+      have hxy : x = y := by
+        have := hx1.symm.trans hy1
+        simpa using this
+      have : allWrites m.tr = W := by rw [← hd1, hxy, hd2]
+      simp [hw, this, hW]
+  have hc4 : (!a.s.published || a.env || (oks m.obs).foldl (modeAfter fs0.umask) none == some (expectedMode cfg fs0.destMode fs0.umask)) = true := by
+    cases hp : a.s.published with
+    | false => rfl
+    | true =>
+      rw [has] at hp
+      obtain ⟨_, _, _, _, p, c, hmode, hpc⟩ := r.pub hp
+      have hpc := hpc hne hnn
+      have hw : (oks m.obs).foldl (modeAfter fs0.umask) none = m.tr.foldl (modeAfter fs0.umask) none := by
+        rw [← mode_filter, ht.oks, mode_filter]
+      have hp1 : p = (choosePerms cfg fs0).1 := by rw [← hpc]
+      have hp2 : c = (choosePerms cfg fs0).2 := by rw [← hpc]
+      simp [hw, hmode, hp1, hp2, setupMode_choose]
+  simp only [accEnd, hc1, hc2, hc3, hc4, Bool.and_self]
 
 end C05
